@@ -171,7 +171,7 @@ def h(text: str) -> int:
 
 
 def validate(ctx: Ctx, prop: str, clauses: set[str], runs: list[dict], traces: list[dict], describe,
-             kind=lambda run, ev: "-") -> None:
+             kind=lambda run, ev: "-", with_strategy: bool = True) -> None:
     ctx.evaluations = len(traces)
     verdicts = ctx.validate("PipelineTrace", traces)
     for idx, bad in sorted(verdicts.items()):
@@ -184,5 +184,7 @@ def validate(ctx: Ctx, prop: str, clauses: set[str], runs: list[dict], traces: l
             if clause not in clauses:
                 continue
             c = runs[idx]["cfg"]
-            ctx.bad(clause, f"{prop}/{clause}/strategy={c.get('min_strategy')}/{kind(runs[idx], ev)}",
+            sig = (f"{prop}/{clause}/strategy={c.get('min_strategy')}/{kind(runs[idx], ev)}" if with_strategy
+                   else f"{prop}/{clause}/{kind(runs[idx], ev)}")
+            ctx.bad(clause, sig,
                     describe(runs[idx], ev), trace={"ev": [ev]}, behaviour=c)
